@@ -70,6 +70,16 @@ func (n *LocalNode) stabilize() error {
 
 	n.lastStabilized.Store(time.Now())
 
+	// the ring is closed once we see ourselves: anything listed after that is not a successor
+	// but a leftover (e.g. a departed node) that two neighbours would otherwise keep handing
+	// back to each other forever in a ring smaller than the successor list.
+	for i, s := range succList {
+		if s != nil && s.ID() == n.ID() {
+			succList = succList[:i+1]
+			break
+		}
+	}
+
 	listHash := n.hash(succList)
 	if modified && n.succListHash.Load() != listHash {
 		n.successorsMu.Lock()
